@@ -2886,6 +2886,30 @@ impl<'data, P: Platform> PreludeLayoutState<'data, P> {
     ) {
         for (index, def_info) in self.internal_symbols.symbol_definitions.iter().enumerate() {
             let symbol_id = self.symbol_id_range.offset_to_id(index);
+
+            // Symbols named by -u / --undefined are GC roots. If the symbol is defined by one of
+            // our inputs, make sure that the section containing it gets loaded.
+            if def_info.placement == SymbolPlacement::ForceUndefined {
+                let definition_id = resources.symbol_db.definition(symbol_id);
+                if definition_id != symbol_id {
+                    let file_id = resources.symbol_db.file_id_for_symbol(definition_id);
+                    let old_flags = resources
+                        .per_symbol_flags
+                        .get_atomic(definition_id)
+                        .fetch_or(ValueFlags::DIRECT);
+
+                    if !old_flags.has_resolution() {
+                        queue.send_work::<A>(
+                            resources,
+                            file_id,
+                            WorkItem::LoadGlobalSymbol(definition_id),
+                            scope,
+                        );
+                    }
+                }
+                continue;
+            }
+
             if !resources.symbol_db.is_canonical(symbol_id) {
                 continue;
             }
